@@ -85,13 +85,16 @@ namespace vf {
 // ---- crash protocol -------------------------------------------------------
 static volatile long g_case = -1;
 static FILE         *g_trace = nullptr;
+static char          g_desc[1024] = "";   // human readable description of the running case (printed on crash)
 
 inline void last_gasp(const char *what, int sig) {
     if (g_trace) fflush(g_trace);
     fflush(stdout);
     char buf[96];
-    int  n = snprintf(buf, sizeof(buf), "\n%s %ld %d\n", what, (long)g_case, sig);
+    int  n = snprintf(buf, sizeof(buf), "\n%s %ld %d ", what, (long)g_case, sig);
     if (write(1, buf, (size_t)n) < 0) {}
+    if (write(1, g_desc, strlen(g_desc)) < 0) {}
+    if (write(1, "\n", 1) < 0) {}
 }
 inline void on_signal(int sig) {
     last_gasp(sig == SIGALRM ? "HANG" : "CRASH", sig);
